@@ -134,3 +134,11 @@ func HarnessLoop_stepFaults() {
 }
 
 var _ = regexp.MustCompile
+
+// HarnessLoop_withBuff drives sanitizeWithBuff (the SanitizeReader path): on
+// any error the returned buffer must be empty.
+func HarnessLoop_withBuff() {
+	p := symLoopPolicy()
+	buf := p.sanitizeWithBuff(stubReader{})
+	verifNoteInt("buflen", buf.Len())
+}
